@@ -67,6 +67,22 @@ func (f *Frame) invariantValue(li *loopInfo, v ssa.Value) (Val, bool) {
 	}
 	if ins, ok := v.(ssa.Instruction); ok {
 		if li.blocks[ins.Block()] {
+			// a load, inside the loop, of a field of a loop-invariant object is itself
+			// loop-invariant if the loop never writes that field (checked after the scan)
+			if ld, ok := v.(*ssa.UnOp); ok && ld.Op == token.MUL && li.stable != nil && li.preHeap != nil {
+				if fa, ok := ld.X.(*ssa.FieldAddr); ok {
+					if base, ok := f.invariantValue(li, fa.X); ok && base.Loc == nil {
+						st := fa.X.Type().Underlying().(*types.Pointer).Elem()
+						so := f.w.Sorts.SortOf(st)
+						fi := f.w.Sorts.Struct(so).Fields[fa.Field]
+						if !fi.Nested {
+							comp := fieldComp(so, fi.Name)
+							li.stable[comp] = true
+							return Val{T: Sel(li.preHeap.Comp(comp, ArraySort(SInt, fi.Sort)), base.T)}, true
+						}
+					}
+				}
+			}
 			return Val{}, false
 		}
 		x, ok := f.env[v]
@@ -336,8 +352,7 @@ func (f *Frame) contractMods(li *loopInfo, fc *FuncContract, callee *ssa.Functio
 	for _, a := range vals {
 		v, ok := f.invariantValue(li, a)
 		if !ok {
-			okAll = false
-			break
+			v = Val{} // placeholder: the name stays unbound; clauses that need it fail to evaluate
 		}
 		args = append(args, v)
 	}
@@ -450,7 +465,18 @@ func (f *Frame) havocLoop(li *loopInfo, st State) *Heap {
 		blocks = append(blocks, b)
 	}
 	sort.Slice(blocks, func(i, j int) bool { return blocks[i].Index < blocks[j].Index })
+	li.stable = map[string]bool{}
 	f.scanMods(li, blocks, ms, f.depth)
+	for comp := range li.stable {
+		_, full := ms.full[comp]
+		if full || len(ms.target[comp]) > 0 || ms.all {
+			// the assumption "field not written in the loop" failed: redo without it
+			li.stable = nil
+			ms = newModSet()
+			f.scanMods(li, blocks, ms, f.depth)
+			break
+		}
+	}
 	if ms.all {
 		vc.Comment("loop havocs the whole heap")
 		return f.havocAll(st.Heap)
@@ -465,6 +491,9 @@ func (f *Frame) havocLoop(li *loopInfo, st State) *Heap {
 		so := ms.sorts[c]
 		if _, full := ms.full[c]; full {
 			heap = heap.Set(c, vc.Fresh("lh."+c, so))
+			if !strings.HasPrefix(c, "L!") {
+				li.fullComps = append(li.fullComps, compRef{c, so})
+			}
 			continue
 		}
 		cur := heap.Comp(c, so)
@@ -543,6 +572,20 @@ func (w *World) VerifyFunc(fn *ssa.Function) *VC {
 		vc.Assume(t)
 		preTerms = append(preTerms, t)
 	}
+	// the function's own frame (used for the automatic loop frame invariants)
+	if !ec.modAll {
+		fms := newModSet()
+		okFrame := true
+		for _, m := range ec.modifies {
+			pre.Scope = m.scope
+			if !f.modTargetExact(pre, m.c, fms) {
+				okFrame = false
+			}
+		}
+		if okFrame {
+			f.frameMS = fms
+		}
+	}
 	// lemmas used by this function
 	for _, ln := range fc.Uses {
 		if err := w.assumeLemma(vc, ln); err != nil {
@@ -550,9 +593,11 @@ func (w *World) VerifyFunc(fn *ssa.Function) *VC {
 		}
 	}
 	// vacuity guard: the precondition must be satisfiable
-	cov := vc.Oblige(label, "cover", "entry", True, True, "precondition is satisfiable")
-	cov.Negate = true
-	cov.Trivial = false
+	if len(ec.requires) > 0 {
+		cov := vc.Oblige(label, "cover", "entry", True, True, "precondition is satisfiable")
+		cov.Negate = true
+		cov.Trivial = false
+	}
 
 	f.run(st)
 
@@ -600,6 +645,10 @@ func (w *World) VerifyFunc(fn *ssa.Function) *VC {
 		}
 		if !isPanic {
 			f.bindResults(post.Vars, fc, fn, fn.Signature, res)
+		} else {
+			// result names are meaningless on the panic exit; bind them to arbitrary values
+			// so that clauses of the form `normal && P(result) ==> Q` evaluate (to true)
+			f.bindResults(post.Vars, fc, fn, fn.Signature, f.freshResults(fn.Signature, State{PC: False, Heap: h}))
 		}
 		for k, e := range ec.ensures {
 			if isPanic && !mentionsExit(e.c.E) {
@@ -903,3 +952,27 @@ func (w *World) VerifyLemma(lm *Lemma) *VC {
 }
 
 var _ = token.ADD
+
+// frameFormula: component comp of heap h agrees with the function-entry heap on
+// every address allocated at entry that the function's modifies clause does
+// not name.
+func (f *Frame) frameFormula(comp compRef, h *Heap) (Term, bool) {
+	top := f
+	if top.frameMS == nil || top.entryHeap == nil {
+		return Term{}, false
+	}
+	if _, full := top.frameMS.full[comp.name]; full {
+		return True, true
+	}
+	cur := h.Comp(comp.name, comp.sort)
+	orig := top.entryHeap.Comp(comp.name, comp.sort)
+	if cur.S == orig.S {
+		return True, true
+	}
+	r := Term{"r!", SInt}
+	conds := []Term{Le(r, top.entryHeap.Comp(allocComp, SInt))}
+	for _, b := range top.frameMS.target[comp.name] {
+		conds = append(conds, Ne(r, b))
+	}
+	return Forall([]Term{r}, Implies(And(conds...), Eq(Sel(cur, r), Sel(orig, r))), []Term{Sel(cur, r)}), true
+}
